@@ -49,6 +49,7 @@ NAMING = [
     ("naming:alias-declared-after-its-use", [("enum", "StateType", (("Idle", 0), ("Run", 1), ("Fault", 2))), ("struct", "Mach", (("prev", 1, ("ref", "StateType"), None, None), ("state", 0, U(8), None, None), ("z", 2, U(8), None, None)))], {"Mach": {"state": 1, "prev": 2, "z": 255}}),
     ("naming:service-camel-case", [_st("Req", ("id", U(8))), _st("Rep", ("value", U(16))), ("service", "MotorControl", 1, (("Get", 0, "Req", "Rep"),))], {"Req": {"id": 7}, "Rep": {"value": 515}}),
     ("naming:service-snake-case", [_st("Req", ("id", U(8))), _st("Rep", ("value", U(16))), ("service", "motor_control", 1, (("get_it", 0, "Req", "Rep"),))], {"Req": {"id": 7}, "Rep": {"value": 515}}),
+    ("naming:method-named-like-a-payload-struct", [_st("Empty", ("pad", U(1))), _st("Status", ("code", U(8))), ("service", "Sys", 1, (("Status", 0, "Empty", "Status"), ("Reset", 1, "Empty", "Status")))], {"Empty": {"pad": 1}, "Status": {"code": 7}}),
     ("naming:payload-camel-case", [_st("SensorReq", ("id", U(8))), _st("sensor_rep", ("value", U(16))), ("service", "Sensor", 1, (("Get", 0, "SensorReq", "sensor_rep"),))], {"SensorReq": {"id": 7}, "sensor_rep": {"value": 515}}),
     ("naming:field-named-buffer", [_st("Frame", ("length", U(8)), ("buffer", ("arr", U(8), 4)))], {"Frame": {"length": 4, "buffer": [1, 2, 3, 4]}}),
     ("naming:field-named-endianess", [_st("Config", ("endianess", U(1)), ("gain", I(7)))], {"Config": {"endianess": 1, "gain": -3}}),
@@ -62,6 +63,7 @@ NAMING = [
     ("naming:struct-named-like-its-own-fields-alias", [_st("SensorType", ("sensor", U(8)), ("gain", U(4)))], {"SensorType": {"sensor": 200, "gain": 9}}),
     ("naming:struct-named-like-its-own-accessor", [_st("GetStatus", ("status", U(8)))], {"GetStatus": {"status": 7}}),
     ("naming:enumerator-named-like-its-enum", [("enum", "Mode", (("Off", 0), ("Mode", 1))), _st("Cfg", ("m", ("ref", "Mode")))], {"Cfg": {"m": 1}}),
+    ("naming:getter-equals-another-fields-alias", [_st("Command", ("get_config", U(1)), ("config_type", U(7)))], {"Command": {"get_config": 1, "config_type": 66}}),
     ("naming:fields-equal-in-pascal-case", [_st("Wheel", ("speed", U(16)), ("Speed", I(16)))], {"Wheel": {"speed": 1000, "Speed": -2}}),
 ]
 
